@@ -191,6 +191,24 @@ def r15_descriptor_write(ctx, rule='R15'):
                     isinstance(n_.test.ops[0], (ast.NotEq, ast.NotIn)) and 'path' in u(n_.test).lower() and \
                     any(isinstance(k, ast.Constant) and k.value == 'datapackage.json' for k in ast.walk(n_.test)):
                 reserved = True
+    # ... nor can two resources take the same name: prepare_resource derives the file name with Path.with_suffix, so 'data.v1' and
+    # 'data.v2' both become 'data.csv' - the second data file replaces the first while the descriptor lists both
+    unique = False
+    for m_ in fd.methods.values():
+        mn_ = ctx.N(m_).node if not isinstance(m_.node, ast.Lambda) else m_.node
+        for n_ in ast.walk(mn_):
+            if isinstance(n_, ast.If) and any(isinstance(x, ast.Raise) for st_ in n_.body for x in ast.walk(st_)):
+                t_ = n_.test
+                if isinstance(t_, ast.Compare) and len(t_.ops) == 1 and isinstance(t_.ops[0], ast.In) and 'path' in u(t_.left).lower() \
+                        and pseudo(t_.comparators[0]):
+                    taken_ = pseudo(t_.comparators[0])
+                    grows = any(isinstance(c_, ast.Call) and isinstance(c_.func, ast.Attribute) and c_.func.attr in ('add', 'append')
+                                and pseudo(c_.func.value) == taken_ and c_.args and u(c_.args[0]) == u(t_.left) for c_ in ast.walk(mn_))
+                    unique = unique or grows
+    ctx.run.check(unique, rule, fd.where, fd.qualname, 'a resource whose output path is already taken by another resource is refused',
+                  'nothing keeps two resources from being written to one file (paths that differ only in their last suffix both become '
+                  '<name>.csv): the second data file replaces the first, the descriptor lists the file twice, and the recorded size / hash '
+                  'of the first resource describe a file that is gone')
     ctx.run.check(reserved, rule, fd.where, fd.qualname, "a resource whose path is 'datapackage.json' is refused",
                   "nothing keeps a resource from being written under the descriptor's own name: the data file appears as "
                   "datapackage.json before the data files are complete, and the descriptor written at the end replaces it (the finished "
